@@ -293,6 +293,18 @@ pub fn pair_texts() -> Vec<(String, String)> {
         out.push(render(&[Tok::Id("a"), op(o), Tok::Index("b", "c")]));
         out.push(render(&[Tok::Id("a"), op(o), Tok::Call("b", "c")]));
     }
+    // depth 3 where token adjacency matters: a unary operand between two binary operators, and two unary operators
+    // after a binary one (`a - -b * c`, `a + + +b`)
+    for o1 in &bins {
+        for u in &uns {
+            for o2 in &bins {
+                out.push(render(&[Tok::Id("a"), op(o1), op(u), Tok::Id("b"), op(o2), Tok::Id("c")]));
+            }
+            for u2 in &uns {
+                out.push(render(&[Tok::Id("a"), op(o1), op(u), op(u2), Tok::Id("b")]));
+            }
+        }
+    }
     // conditional with conditional
     out.push(render(&[Tok::Id("a"), op(" ? "), Tok::Id("b"), op(" : "), Tok::Id("c"), op(" ? "), Tok::Id("d"), op(" : "), Tok::Id("a")]));
     out.push(render(&[Tok::Id("a"), op(" ? "), Tok::Id("b"), op(" ? "), Tok::Id("c"), op(" : "), Tok::Id("d"), op(" : "), Tok::Id("a")]));
